@@ -60,14 +60,16 @@ Proof.
       eexists; split; [reflexivity | discriminate].
 Qed.
 
-(** the glob filter: the oracle's entries in the oracle's order, minus . and .. and minus
-    hidden names unless the pattern's last component starts with .* ; the pattern itself
+(** the glob filter: the oracle's entries in the oracle's order, minus . and .. , minus
+    hidden names unless the pattern's last component starts with .* , and (since 7572cd1) minus the
+    paths with a hidden DIRECTORY component the pattern does not spell out ([glob_keep], Model/Expand.v;
+    Proofs/RangeGlobProofs.v: glob_keep_no_hidden_dir); the pattern itself
     when nothing is left; a name with a blank stays one (double-quote tagged) token *)
 Theorem glob_token_spec W item paths :
   contains_char 42 item = true -> starts_with [39] (trim item) = false -> starts_with [34] (trim item) = false ->
   needs_globbing item = true -> glob W item = Some paths ->
   sel_tokens (glob_sel W) (TNone, item) =
-  map retag (let r := filter (glob_keep (starts_with [46; 42] (basename item))) paths in
+  map retag (let r := filter (glob_keep item (starts_with [46; 42] (basename item))) paths in
              if is_empty r then [item] else r).
 Proof.
   intros H1 H2 H3 H4 H5. unfold sel_tokens, glob_sel, glob_one. cbn [fst snd tag_is_empty tag_eqb negb orb].
@@ -106,10 +108,10 @@ Proof.
 Qed.
 
 (* ------------------------------------------------------------------ witnesses *)
-(** echo a{1..3}b : the text around the range is dropped *)
-Lemma range_drops_affixes :
+(** echo a{1..3}b : since f69a693 the text around the range is kept (regression example) *)
+Lemma range_keeps_affixes :
   expand_brace_range [(TNone, s2l "echo"); (TNone, s2l "a{1..3}b")]
-  = Ok [(TNone, s2l "echo"); (TNone, s2l "1"); (TNone, s2l "2"); (TNone, s2l "3")].
+  = Ok [(TNone, s2l "echo"); (TNone, s2l "a1b"); (TNone, s2l "a2b"); (TNone, s2l "a3b")].
 Proof. vm_compute. reflexivity. Qed.
 
 (** echo {2147483646..2147483647} : since 3746800 the loop stops at the i32 limit (regression example) *)
@@ -118,10 +120,10 @@ Lemma range_at_i32_max :
   = Ok [(TNone, s2l "2147483646"); (TNone, s2l "2147483647")].
 Proof. vm_compute. reflexivity. Qed.
 
-(** echo {1..2} {1..99999999999} : one operand out of range leaves EVERY range of the line unexpanded *)
-Lemma range_abort_drops_all :
+(** echo {1..2} {1..99999999999} : since 9bedc7c an operand out of range skips THAT token only (regression example) *)
+Lemma range_bad_operand_skipped :
   expand_brace_range [(TNone, s2l "{1..2}"); (TNone, s2l "{1..99999999999}")]
-  = Ok [(TNone, s2l "{1..2}"); (TNone, s2l "{1..99999999999}")].
+  = Ok [(TNone, s2l "1"); (TNone, s2l "2"); (TNone, s2l "{1..99999999999}")].
 Proof. vm_compute. reflexivity. Qed.
 
 (** echo {a}{b,c} : since 4f56aed a group without a comma keeps its braces and consumes the closing one *)
@@ -134,3 +136,8 @@ Lemma home_with_dollar :
   expand_home_tok (mkWorld (fun _ => None) (fun _ => None) 0%Z 1%Z (s2l "/h$tail") (fun _ => None) (fun _ => None)
                            (fun _ => None)) (TNone, s2l "~/x") = (TNone, s2l "/h$tail/x").
 Proof. vm_compute. reflexivity. Qed.
+
+Print Assumptions pass_is_flat_map.
+Print Assumptions glob_token_spec.
+Print Assumptions range_keeps_affixes.
+Print Assumptions range_bad_operand_skipped.
